@@ -340,7 +340,7 @@ print(json.dumps({"made": made, "overlap_warnings": seen.count("OverlapWarning")
 '''
 
 
-@contract("C20", "warning_every_construction", [S + "spherecluster:Spheres.__init__", "holopy.scattering.errors:OverlapWarning"], native_only=True,
+@contract("C20", "warning_every_construction", [S + "spherecluster:Spheres.__init__", "holopy.scattering.errors:OverlapWarning"], native_only=True, native_runs=(12, 60),
           bounded="native sampling in a fresh interpreter with Python's default warning filters: 1-5 clusters of 2-3 spheres built from one source "
                   "line out of two distinct geometries (so identical clusters recur), overlapping or separate, warn on or off")
 def warning_every_construction(c):
